@@ -1,6 +1,9 @@
 package ref
 
-import "sort"
+import (
+	"sort"
+	"unicode/utf8"
+)
 
 // ---------------------------------------------------------------------------------------------
 // R2: reference EBNF scanner, transcribed from the token table of docs/5-definitions.md and the comment and
@@ -225,4 +228,25 @@ func (s *Scanner) Boundaries(text string) []int {
 		out = append(out, i)
 	}
 	return out
+}
+
+// FirstInvalidUTF8 returns the index (in runes, as Scan counts offsets) and the line and column of the first byte
+// of the text that does not begin a valid UTF-8 sequence.
+func FirstInvalidUTF8(text string) (off, line, col int, found bool) {
+	line, col = 1, 1
+	for i := 0; i < len(text); {
+		r, size := utf8.DecodeRuneInString(text[i:])
+		if r == utf8.RuneError && size <= 1 {
+			return off, line, col, true
+		}
+		off++
+		if r == '\n' {
+			line++
+			col = 1
+		} else {
+			col++
+		}
+		i += size
+	}
+	return 0, 0, 0, false
 }
